@@ -204,6 +204,17 @@ def explore(run, tier):
             b = 'cp500' if a == 'latin_1' else 'latin_1'
             for blk in (0, 1):
                 cases.append({'kind': 'ipm', 'tool': 'mideu', 'a': a, 'b': b, 'inb': blk, 'outb': blk, 'msgs': msgs})
+    # numbers and dates given as TEXT in spellings that are not the canonical one (a sign, blanks, an underscore; exactly
+    # the element's width or not): the library writes the canonical rendering, so the file converts there and back to
+    # itself byte for byte
+    for a, b in (('latin_1', 'cp500'), ('cp500', 'cp037'), ('cp037', 'latin_1')):
+        msgs = [iu.dict_wire(m) for m in (
+            {'MTI': '1240', 'DE2': '5' * 16, 'DE4': '+00000002500', 'DE71': ' 0000003'},
+            {'MTI': '1240', 'DE2': '4' * 16, 'DE4': '00000_002500', 'DE71': '3'},
+            {'MTI': '1240', 'DE2': '4' * 16, 'DE4': ' 2500       ', 'DE71': '00000004', 'DE5': '-00000000012'},
+            {'MTI': '1240', 'DE2': '4' * 16, 'DE4': 2500, 'DE71': 5})]
+        for inb, outb in ((0, 0), (1, 1), (0, 1)):
+            cases.append({'kind': 'ipm', 'tool': 'encode', 'a': a, 'b': b, 'inb': inb, 'outb': outb, 'msgs': msgs})
     # records at and next to the maximum record length, and sized to end on a 1012-byte payload boundary
     ml = c07.c03max()
     for j, total in enumerate([ml, ml - 1, 2020, 1008, 3032]):
